@@ -56,8 +56,14 @@ func (g *deepcopyGen) generateType(c gengo.Context, named *types.Named, asDep bo
 	defers := make([]*types.Named, 0)
 
 	if interfaces != "" {
+		recv := snippet.T("*@Type", snippet.Args{"Type": snippet.ID(named.Obj())})
+		if _, ok := named.Underlying().(*types.Map); ok {
+			// the methods generated for a map type have value receivers
+			recv = snippet.ID(named.Obj())
+		}
+
 		c.RenderT(`
-func(in *@Type) DeepCopyObject() @ObjectInterface {
+func(in @Recv) DeepCopyObject() @ObjectInterface {
 	if c := in.DeepCopy(); c != nil {
 		return c
 	}
@@ -66,7 +72,7 @@ func(in *@Type) DeepCopyObject() @ObjectInterface {
 
 `, snippet.Args{
 			"ObjectInterface": snippet.ID(interfaces),
-			"Type":            snippet.ID(named.Obj()),
+			"Recv":            recv,
 		})
 	}
 
